@@ -13,7 +13,7 @@ ID = "C11"
 LEVEL = "exploration"
 RULE = ("streams = concatenations of 1-6 framed messages of all seven types (payloads from C07's strategies) and corrupted "
         "variants (wrong magic at message k, length field > 32 MiB / == 32 MiB at message k, length one more / one less than the "
-        "payload, trailing partial frame); fragmentations: ALL 2- and 3-way cuts of short streams (exhaustive) and Hypothesis-"
+        "payload, trailing partial frame, messages exactly AT the limit -- the real 32 MiB one and small patched limits); fragmentations: ALL 2- and 3-way cuts of short streams (exhaustive) and Hypothesis-"
         "drawn many-way cuts (chunks 1..1024) of long streams; the same through a simulated node's full event path "
         "(recv(1024), drawn arrival sizes). Oracle: the sequence of (header bytes, message bytes) handed on is identical for "
         "every fragmentation and equals the reference framer's parse; for a corrupted stream every message before the "
@@ -39,10 +39,10 @@ class StubPeer:
         self.got.append((header.serialize(), message.serialize()))
 
 
-def expected(M, stream):
+def expected(M, stream, limit=None):
     """reference outcome: ([(hdr bytes, msg bytes)...], trigger) with trigger = None | (kind, offset of the byte whose
     arrival makes the receiver refuse)"""
-    payloads, refusal = R.parse_stream(stream)
+    payloads, refusal = R.parse_stream(stream, limit)
     out = []
     pos = 0
     for p in payloads:
@@ -139,7 +139,54 @@ KINDS = ["none", "magic", "magic_first_byte", "len_over", "len_limit", "len_max"
 
 def shards(tier):
     n = 14 if tier == "quick" else 60
-    return [{"kind": "exh", "i": i, "n": n} for i in range(n)] + [{"kind": "rand", "i": i} for i in range(2)] + [{"kind": "node", "i": 0}]
+    return ([{"kind": "exh", "i": i, "n": n} for i in range(n)] + [{"kind": "rand", "i": i} for i in range(2)] + [{"kind": "node", "i": 0}]
+            + [{"kind": "limit", "i": 0}])
+
+
+def run_limit(res, tier, seed):
+    """messages AT the size limit: (1) the real 32 MiB limit with a maximal (padded) message followed by more frames under
+    several fragmentations incl. a 1024-byte read that straddles its end; (2) the limit patched to a small value and ALL 1- and
+    2-cut fragmentations of streams whose middle message is exactly at the limit / one above it"""
+    RP, M = mods()
+    sm = small_messages(M)
+    real = RP.MAX_MESSAGE_SIZE
+    if real != R.MAX_MESSAGE_SIZE:
+        res.fail("limit", "size-limit-constant", "MAX_MESSAGE_SIZE = %r, the documented limit is %d" % (real, R.MAX_MESSAGE_SIZE), {"limit_const": True})
+    big = sm[0] + b"\x00" * (real - len(sm[0]))                     # decoders ignore trailing bytes: a maximal well-formed message
+    frames = [R.frame(sm[1]), R.frame(big), R.frame(sm[2]), R.frame(sm[3])]
+    stream = b"".join(frames)
+    exp, trig = expected(M, stream)
+    e1 = len(frames[0]) + len(frames[1])
+    frags = {"one_piece": (), "frame_by_frame": (len(frames[0]), e1, e1 + len(frames[2])),
+             "read_straddles_end_of_maximal_message": (len(frames[0]), e1 - 500, e1 + 524),
+             "cut_inside_next_magic": (e1 + 2,), "tail_first": (e1 - 1, e1 + 1)}
+    for name, cuts in frags.items():
+        res.evaluations += 1
+        res.nontrivial("reallimit:" + name)
+        check(res, RP, stream, cuts, exp, trig, lambda: {"limit_case": "real", "fragmentation": name})
+    over = R.frame(sm[1]) + b"MAJI" + struct.pack(">I", real + 1)
+    exp2, trig2 = expected(M, over)
+    check(res, RP, over, (len(over) - 2,), exp2, trig2, lambda: {"limit_case": "real+1"})
+    # (2) small patched limit, exhaustive cuts
+    for L in (len(sm[1]) + 3, len(sm[5]) + 1):
+        RP.MAX_MESSAGE_SIZE = L
+        try:
+            for delta in (0, 1):
+                pad = sm[1] + b"\x00" * (L + delta - len(sm[1]))
+                frames = [R.frame(sm[0]), R.frame(pad), R.frame(sm[2])]
+                stream = b"".join(frames)
+                exp, trig = expected(M, stream, L)
+                n = len(stream)
+                for c1 in range(1, n):
+                    check(res, RP, stream, (c1,), exp, trig, lambda: {"limit_case": "patched", "limit": L, "delta": delta, "cuts": [c1]})
+                    for c2 in range(c1 + 1, n, 1 if tier == "thorough" else 3):
+                        check(res, RP, stream, (c1, c2), exp, trig, lambda: {"limit_case": "patched", "limit": L, "delta": delta, "cuts": [c1, c2]})
+                        res.evaluations += 1
+                        res.disjoint += 1
+                check(res, RP, stream, (), exp, trig, lambda: {"limit_case": "patched", "limit": L, "delta": delta, "cuts": []})
+        finally:
+            RP.MAX_MESSAGE_SIZE = real
+    res.sample({"limit": "real 32 MiB maximal message under 5 fragmentations; patched small limits with exhaustive cuts, message at limit and limit+1"})
 
 
 def exh_stream(M, i):
@@ -177,6 +224,9 @@ def run(shard, tier, seed):
         res.count("stream_kind:" + kind)
         res.exhaustive = (step == 1)
         res.sample({"stream_bytes": L, "frames": len(frames), "corruption": kind, "at_frame": k, "cuts": "all 1- and 2-cut fragmentations" + ("" if step == 1 else " (second cut at every 2nd offset in the quick tier)")})
+        return res
+    if shard["kind"] == "limit":
+        run_limit(res, tier, seed)
         return res
     if shard["kind"] == "rand":
         from vf.props import c07
@@ -268,7 +318,9 @@ def run_node(res, tier, seed):
 def replay(case):
     RP, M = mods()
     res = Result()
-    if "stream" in case:
+    if "limit_case" in case or "limit_const" in case:
+        run_limit(res, "quick", 1)
+    elif "stream" in case:
         stream = bytes.fromhex(case["stream"])
         exp, trig = expected(M, stream)
         check(res, RP, stream, tuple(case["cuts"]), exp, trig, lambda: case)
